@@ -23,6 +23,19 @@ FEATS = {"flatten", "pattern", "additional", "class_aliaser", "frozen", "alias",
          "undefined", "none_as_undefined", "fbod", "methods", "ser_if", "ser_default"}
 
 
+def unique_over_objects(t):
+    from vf.spec import Ann
+    for n in t.walk():
+        cons = n.cons if isinstance(n, Ann) else None
+        if cons and cons.get("unique") and any(isinstance(x, ObjectT) for x in n.walk()):
+            return True
+        if isinstance(n, ObjectT):
+            for f in n.fields:
+                if (f.cons or {}).get("unique") and any(isinstance(x, ObjectT) for x in f.t.walk()):
+                    return True
+    return False
+
+
 def object_positions(schema, data, root, out, depth=0):
     """pairs (object sub-schema, object datum) reachable through properties / items / $ref (for the key-level sub-claims)"""
     from vf.jsonschema_o import resolve_pointer
@@ -195,6 +208,9 @@ def run(env):
             t = g.object(0, kind="dataclass" if rng.random() < 0.7 else None)
         if ambiguous_union(t):
             env.count("abstain:class-ambiguous union")
+            continue
+        if unique_over_objects(t):
+            env.count("abstain:uniqueness over objects completed with defaults")  # raw items distinct, completed items equal
             continue
         prog = Program(t)
         try:
